@@ -109,7 +109,7 @@ def ctrsbox_sfista(xopt, g, H, projections, delta, h, L_h, prox_uh, argsh=(), ar
     try:
         MAX_LOOP_ITERS = ceil(sfista_iters_scale * delta * (L_h+sqrt(L_h*L_h+2*k_H*func_tol)) / func_tol)
         MAX_LOOP_ITERS = min(MAX_LOOP_ITERS, max_iters)
-    except ValueError:
+    except (ValueError, OverflowError):  # NaN or inf (e.g. norm(H) overflows after a huge objective value)
         MAX_LOOP_ITERS = max_iters
     u =  2 * delta / (MAX_LOOP_ITERS * L_h) # smoothing parameter
     # u = 2 * func_tol / (L_h ** 2 + L_h * sqrt(L_h ** 2 + 2 * k_H * func_tol))  # the above choice works better in practice
